@@ -27,9 +27,10 @@ VARIABLES mem, kids, pg, reg, fnode, flink, fpg, held, mode, last,
           fopt,    \* per stored node: are the optional scalar attributes present (a foreign writer may omit them)
           saved,   \* save_as was used (at most once per behaviour)
           w2, w2pg, \* a second workspace (always open r+), target of cross-workspace copies: stored entities / property groups
+          cmode,   \* the mode the live Workspace OBJECT was constructed with (Open on the same object does not change it)
           inord    \* per container: is its in-memory children list known to be in ascending slot order (see InordUpdate)
-vw   == <<mem, kids, pg, reg, fnode, flink, fpg, held, mode, dirty, fopt, saved, w2, w2pg, inord>>
-vars == <<mem, kids, pg, reg, fnode, flink, fpg, held, mode, dirty, fopt, saved, w2, w2pg, inord, last>>
+vw   == <<mem, kids, pg, reg, fnode, flink, fpg, held, mode, dirty, fopt, saved, w2, w2pg, inord, cmode>>
+vars == <<mem, kids, pg, reg, fnode, flink, fpg, held, mode, dirty, fopt, saved, w2, w2pg, inord, cmode, last>>
 Aux  == <<dirty, fopt, saved, w2, w2pg>>
 
 Root == 0
@@ -126,6 +127,7 @@ Init ==
     /\ w2 = [y \in W2E |-> NoW2]
     /\ w2pg = [q \in W2P |-> NoPG]
     /\ inord = [c \in Cont |-> TRUE]
+    /\ cmode = "r+"
     /\ last = [act |-> "Init", args |-> [x |-> 0], out |-> "ok", foot |-> {}]
 
 \* ======================= creation
@@ -639,13 +641,15 @@ Close(how) ==
     /\ mode' = "closed" /\ dirty' = {}
     /\ UNCHANGED <<mem, kids, pg, held, fopt, saved, w2, w2pg>>
 
-Open(m) ==
+\* fresh: a new Workspace object is constructed on the file in mode m (Workspace(path, mode=m)); otherwise the same
+\* object is re-opened (ws.open(mode=m)) and keeps the mode it was constructed with - the two may then differ
+Open(m, fresh) ==
     /\ Do("Open") /\ mode = "closed"
     /\ LET L == LoadOf(fnode, flink, fpg) IN
        /\ mem' = L.mem /\ kids' = L.kids /\ pg' = L.pg /\ reg' = L.reg
     /\ held' = {}
     /\ mode' = m
-    /\ Ok("Open", [m |-> m], {})
+    /\ Ok("Open", [m |-> m, fresh |-> fresh], {})
     /\ UNCHANGED <<fnode, flink, fpg, Aux>>
 
 \* Workspace.save_as (workspace.py:1268-1298): close (final save), copy the bytes to the new path, re-open the SAME
@@ -727,14 +731,15 @@ Step ==
     \/ \E k \in {"G", "O", "D"} : Purge(k)
     \/ \E s \in ES, p \in Cont, deep \in BOOLEAN : Copy(s, p, deep)
     \/ \E h \in Hows : Close(h)
-    \/ \E m \in {"r+", "r"} : Open(m)
+    \/ \E m \in {"r+", "r"}, fresh \in BOOLEAN : Open(m, fresh)
     \/ \E op \in ClosedOps : CallClosed(op)
     \/ \E s \in GS \cup OS : RemoveBlocked(s)
     \/ OpenAgain
     \/ \E d \in DS, e \in DS : SetType(d, e)
     \/ \E d \in DS, y \in W2E : Copy2Data(d, y)
 
-Next == Step /\ InordUpdate
+CmodeUpdate == cmode' = IF last'.act = "Open" /\ last'.args.fresh THEN last'.args.m ELSE cmode
+Next == Step /\ InordUpdate /\ CmodeUpdate
 Spec == Init /\ [][Next]_vars
 DepthBound == TLCGet("level") <= MaxDepth
 
